@@ -205,6 +205,11 @@ func (g *gen) stArray() *Node {
 	g.useVar(v)
 	k, el := arrSplit(v.typ)
 	g.noteWrite(vr(v.name))
+	if (v.typ == "[3]int" || v.typ == "[2][3]int") && !v.ro && g.room(12) && g.chance(18) && g.on(kRangeArrayCopy) {
+		if n := g.stRangeArrayWrite(v); n != nil {
+			return n
+		}
+	}
 	switch g.weighted([]int{60, 14, 13, 13}, "stak") {
 	case 1:
 		// the whole array: a = b copies
@@ -260,4 +265,44 @@ func (g *gen) stArray() *Node {
 		st = &Node{K: "incdec", S: []string{"++", "--"}[g.n(2, "id")], A: []*Node{t}}
 	}
 	return g.arrObserve(st, v, constIndex(t))
+}
+
+// stRangeArrayWrite: for i, x := range a { a[j] = e; acc += x }: range with a value variable works on a copy of the
+// array made before the first iteration, so the values produced do not depend on what the body writes to a.
+func (g *gen) stRangeArrayWrite(v *vinfo) *Node {
+	acc, ok := g.accTarget()
+	if !ok || g.f.pure && g.lookup(acc.S) != nil && g.lookup(acc.S).global {
+		return nil
+	}
+	g.noteWrite(acc)
+	k, el := arrSplit(v.typ)
+	g.account(4 * k)
+	kn, vn := g.newName(false), g.newName(false)
+	key := none()
+	if g.chance(50) {
+		key = vr(kn)
+	}
+	// the element written is one the loop has not produced yet (for the first iterations at least)
+	var t, read *Node
+	if isArray(el) {
+		k2, _ := arrSplit(el)
+		j := int64(g.n(k2, "raj"))
+		t = &Node{K: "index", A: []*Node{{K: "index", A: []*Node{vr(v.name), ilit(int64(k - 1))}}, ilit(j)}}
+		read = &Node{K: "index", A: []*Node{vr(vn), ilit(j)}}
+	} else {
+		t = &Node{K: "index", A: []*Node{vr(v.name), ilit(int64(1 + g.n(k-1, "rai")))}}
+		if key.K != "none" && g.chance(50) {
+			t = &Node{K: "index", A: []*Node{vr(v.name), bin("%", bin("+", vr(kn), ilit(1)), ilit(int64(k)))}}
+		}
+		read = vr(vn)
+	}
+	var w *Node
+	if g.chance(50) {
+		w = &Node{K: "assign", S: "+=", A: []*Node{t, ilit(int64(g.rng(1, 9, "rac")))}}
+	} else {
+		w = &Node{K: "assign", S: "=", A: []*Node{t, ilit(int64(g.rng(10, 99, "rac")))}}
+	}
+	upd := &Node{K: "assign", S: "+=", A: []*Node{acc, bin("%", read, ilit(1009))}}
+	g.mark("range-array-write")
+	return &Node{K: "range", T: ":=", A: []*Node{key, vr(vn), vr(v.name)}, B: []*Node{w, upd}}
 }
